@@ -260,6 +260,8 @@ def rand_ops(rng, pats, deps, nops, guard=None, deep=False):
             v = pick_value(rng, p, guard)
         if rng.random() < 0.02:
             path = rng.choice(["interfaces.eth1", "nosuch.path", "interfaces.eth1.mtu.x", "protocols.ospf"])
+        if v.startswith("o"):
+            replaced.add(path)      # (also when the 2% odd path turned this into a whole-entry Set)
         ops.append("s %s %s %s %d" % (sid(), path, v, 1 if rng.random() < 0.04 else 0))
 
     def block():
